@@ -1,8 +1,9 @@
 """C16 - parsing work grows linearly with input size - no backtracking blow-up.
 
-Step-counter monitor: sys.monitoring PY_START events inside pycparser's own code
-objects are counted per parse() call (deterministic: thresholds are not timing
-sensitive).  Scalable input families f(k) are parsed at doubling k; the growth ratio of
+Step-counter monitor: sys.monitoring PY_START events in every code object run on behalf
+of parse() (pycparser itself, copy, re, ... - the harness excluded) plus backward JUMP
+events (loop iterations) inside pycparser are counted per parse() call (deterministic:
+thresholds are not timing sensitive).  Scalable input families f(k) are parsed at doubling k; the growth ratio of
 the step count decides.  Regex backtracking is invisible to Python-level events, so
 lexer families are judged by CPU time with two to three orders of magnitude of margin."""
 import json
@@ -23,7 +24,7 @@ RULE = ("~75 scalable families f(k): k-fold repetition of each declaration/state
         "initializer braces, blocks, if/else, ?:, pointer/array/function/parenthesised declarators named and abstract, "
         "struct nesting, type names inside array bounds inside type names for cast/sizeof/compound literal/_Alignas/"
         "_Atomic), pairwise compositions of the recursive constructs, prefixes of the three benchmark files at doubling "
-        "sizes; 30 adversarial literal families for the lexer's regular expressions. k = 8..256 (quick) / 8..1024 "
+        "sizes; 30 adversarial literal families for the lexer's regular expressions. k = 8..512 (quick) / 8..1024 "
         "(thorough). Violation: two consecutive doublings with step ratio > 2.6 (sizes with >= 3000 steps), a step "
         "budget of 400 steps per input character exceeded, or for lexer families an input of <= 8000 characters "
         "taking > 10 s user CPU when run alone (min of 3; today's worst: 0.18 s), 65536 characters taking > 40 s (today's worst: 1.5 s), or a "
@@ -34,6 +35,8 @@ ASSUMPTIONS = ["PY_START counts are deterministic for a given input", "Recursion
                "(a loaded machine inflates measured CPU time by up to 25x in this sandbox)"]
 SHARD_TIMEOUT = {"quick": 240, "thorough": 900}
 RATIO = 2.6
+# known-finding attribution: loop iterations inside these functions are also counted separately
+KF_FUNCS = {"CParser._type_modify_decl": "K46", "CParser._is_type_in_scope": "K47"}
 
 
 def rep(unit, pre="", suf=""):
@@ -149,6 +152,47 @@ def _abstract_param_chain(k):
     return "void h(" + d + ");"
 
 
+FAMILIES.update({
+    # ---- repetition in the less usual positions
+    "rep-switch-prelude": lambda k: fdef("switch (a) { int t; " + "t = a; " * k + "case 0: break; }"),
+    "rep-switch-no-label": lambda k: fdef("switch (a) { " + "a = 1; " * k + "}"),
+    "rep-switch-prelude-decls": lambda k: fdef("switch (a) { " + "int t; " * k + "default: break; }"),
+    "rep-stmts-after-default": lambda k: fdef("switch (a) { case 1: break; default: " + "a = 1; " * k + "}"),
+    "rep-case-stmts": lambda k: fdef("switch (a) { case 1: " + "a = 1; " * k + "break; case 2: " + "a = 2; " * k + "}"),
+    "rep-kr-decls": lambda k: "int g(" + ", ".join(f"a{i}" for i in range(k + 1)) + ") " + "".join(f"int a{i}; " for i in range(k + 1)) + "{ return a0; }",
+    "rep-enum-list": lambda k: "enum E { " + ", ".join(f"E{i} = {i}" for i in range(k + 1)) + " };",
+    "rep-member-declarators": lambda k: "struct S { int " + "m, *n[2], " * k + "z; };",
+    "rep-designator-chain": lambda k: "int x = { " + ".a[1]" * k + " = 1 };",
+    "rep-for-init-declarators": lambda k: fdef("for (int i = 0, " + "j = 1, " * k + "z = 2; ; ) a = 1;"),
+    "rep-block-func-decls": lambda k: fdef("int g(int); " * k),
+    "rep-block-typedefs": lambda k: fdef("".join(f"typedef int T{i}; T{i} v{i}; " for i in range(k))),
+    "rep-inner-scopes": lambda k: "typedef int T; " + fdef("{ T v; T T; T = 1; } " * k),
+    "rep-pragma-in-struct": lambda k: "struct S { int a;\n" + "#pragma pack(1)\nint b;\n" * k + "};",
+    "rep-static-assert-in-struct": lambda k: "struct S { int a; " + "_Static_assert(1, \"m\"); " * k + "};",
+    "rep-compound-literals": lambda k: fdef("a = " + "(int){1} + " * k + "1;"),
+    "rep-anon-members": lambda k: "struct S { " + "struct { int a; }; union { int b; }; " * k + "};",
+    "rep-goto-labels": lambda k: fdef("".join(f"L{i}: goto L{i}; " for i in range(k))),
+    "rep-empty-stmts": lambda k: fdef(";" * k),
+    "rep-string-init-list": lambda k: "char *x[] = { " + "\"s\", " * k + "};",
+    "rep-file-scope-semis-pragmas": lambda k: "int a;\n" + "#pragma x\n;\n" * k,
+    "rep-alignas-atomic": rep("_Alignas(8) _Atomic(int) v; "),
+    "rep-funcdef-params-used": lambda k: "".join(f"int g{i}(int a, int b) {{ return a + b; }} " for i in range(k)),
+    # ---- nests with two names / items per level
+    "nest-struct-2decl": lambda k: "struct s { " * k + "int x;" + " } a, b;" * k,
+    "nest-union-2decl": lambda k: "union u { " * k + "int x;" + " } a, *b;" * k,
+    "nest-struct-typedef-2decl": lambda k: "typedef " + "struct { " * k + "int x;" + " } a, b;" * (k - 1) + " } TA, TB;" if k else "int x;",
+    "nest-enum-in-struct-2decl": lambda k: "struct s { enum { " * 1 + "A } e, f; " + "struct { int y; " * k + " } p, q;" * k + " } r, t;",
+    "nest-struct-2members": lambda k: "struct s { int h; " * k + "int x;" + " } a; int t;" * (k - 1) + " } a;" if k else "int x;",
+    "nest-block-2stmts": lambda k: fdef("{ a = 1; " * k + "a = 2;" + " a = 3; }" * k),
+    "nest-if-block-else-block": lambda k: fdef("if (a) { a = 1; " * k + "a = 2;" + " } else { a = 3; }" * k),
+    "nest-switch-in-case": lambda k: fdef("switch (a) { case 1: a = 1; " * k + "a = 2;" + " break; default: ; }" * k),
+    "nest-for-decl": lambda k: fdef("for (int i = 0; i < a; i++) { int q = i; " * k + "a = 2;" + " }" * k),
+    "nest-atomic-2decl": lambda k: "_Atomic(" * k + "int" + ")" * k + " a, b;",
+    "nest-init-2items": lambda k: "int x = " + "{ 1, " * k + "2" + " }" * k + ";",
+    "nest-call-2args": lambda k: fdef("g(a, " * k + "a" + ")" * k + ";"),
+    "nest-ternary-both": lambda k: fdef("a = " + "(a ? a : " * k + "a" + ")" * k + ";"),
+    "nest-param-2funcs": lambda k: "void g(int z, " + "void (*f)(int y, " * k + "int" + ")" * k + ");",
+})
 FAMILIES["nest-funcptr-through-params"] = _through_params
 FAMILIES["nest-func-param-chain"] = _param_chain
 FAMILIES["nest-abstract-param-chain"] = _abstract_param_chain
@@ -205,7 +249,7 @@ LEX_FAMILIES = {
 def plan(tier, seed):
     names = sorted(FAMILIES)
     n = 14
-    kmax = 256 if tier == "quick" else 1024
+    kmax = 512 if tier == "quick" else 1024
     specs = [{"name": f"fam-{i}", "mode": "families", "families": names[i::n], "kmax": kmax} for i in range(n)]
     specs.append({"name": "files", "mode": "files", "maxchars": 60000 if tier == "quick" else 300000})
     lex = sorted(LEX_FAMILIES)
@@ -297,13 +341,16 @@ def run_shard(spec):
                 json.dump(obj, f)
 
     if spec["mode"] in ("families", "files"):
-        steps = monitors.StepMonitor()
+        steps = monitors.StepMonitor(work=True)
+        steps.attrib = set(KF_FUNCS)
         steps.start()
         try:
             if spec["mode"] == "families":
                 for name in spec["families"]:
                     fam = FAMILIES[name]
                     series = []
+                    twin = []
+                    by = {}
                     k = 8
                     while k <= spec["kmax"]:
                         text = fam(k)
@@ -311,6 +358,10 @@ def run_shard(spec):
                         n, o = measure(steps, text)
                         tag = o[0]
                         series.append((k, len(text), n, tag))
+                        twin.append((k, len(text), n - steps.attributed,
+                                     "ok" if tag == "budget" and n - steps.attributed <= (20000 + 400 * len(text)) // 2 else tag))
+                        for fn_, c_ in steps.attributed_by.items():
+                            by[fn_] = by.get(fn_, 0) + c_
                         cnt["measurements"] += 1
                         res["evaluations"] += 1
                         res["nontrivial_distinct"] += 1
@@ -323,6 +374,15 @@ def run_shard(spec):
                     cnt["families"] += 1
                     cnt["table"][name] = [(a, c) for a, b, c, d in series]
                     vs = judge_series(name, series)
+                    if vs and sum(a[2] - b[2] for a, b in zip(series, twin)) > 0 and not judge_series(name, twin):
+                        # K46 / K47: the whole excess consists of loop iterations inside CParser._type_modify_decl (the walk
+                        # to the tail of the modifier chain, repeated per declarator level) or CParser._is_type_in_scope (the
+                        # walk over all enclosing scopes, repeated per identifier); without them the series is linear
+                        top = max(by, key=by.get)
+                        for v in vs:
+                            v["kf"] = KF_FUNCS[top]
+                            v["detail"]["loop_iterations_attributed"] = by
+                            v["detail"]["steps_without_attributed_loops"] = [(a, b, c) for a, b, c, _ in twin]
                     if vs:
                         res["violations"] += vs
                 res["samples"].append({"family": spec["families"][0], "text_at_k8": FAMILIES[spec["families"][0]](8)[:200]})
@@ -459,7 +519,7 @@ def replay(rec):
         print("cpu seconds:", t)
         return [{"kind": rec["kind"], "detail": {"cpu_seconds": t}}] if t > 2.0 else []
     if "family" in c:
-        steps = monitors.StepMonitor()
+        steps = monitors.StepMonitor(work=True)
         steps.start()
         try:
             series = []
